@@ -12,7 +12,7 @@ RULE = ('L1: every single-clause predicate p(t1..tk) :- B, k<=2 over 13 head-arg
         'queried with EVERY tuple of query-argument shapes (unbound, aliased, partial, ground). L2: every program '
         'of <=2 [thorough: 3] clauses over p/1,q/1 with head argument in {X,a,b,f(X)} and body of <=1 goal '
         '[thorough, 2-clause programs: <=2 goals] over p|q x {X,Y,a,b,f(X)} (direct, mutual and left recursion, '
-        'duplicate clauses), queries p(A) p(a) p(f(A)) q(A). L3: append/member/len/nat/rev/in/path idioms over '
+        'duplicate clauses), queries p(A) p(a) p(f(A)) q(A). L2b: every sequence of 3 [thorough: 4] clauses of ONE predicate r/2 over 6 head shapes x 4 bodies (the same variable name as plain head argument, nested, repeated or body-only in different clauses). L3: append/member/len/nat/rev/in/path idioms over '
         'every DAG on 3 nodes in every argument mode. L4: 6 templates with many anonymous variables (alone and combined in one program, so that the program-wide numbering of _ reaches 13) x EVERY injective naming of their two named variables from a menu of 44 names (_1.._14, look-alikes of the compiler\'s own argument, loop, flag and prefix names, Python constants). Each program is compiled, loaded into a fresh engine and '
         'every query is compared answer by answer (bindings up to renaming incl. aliasing, order, multiplicity, '
         'termination under a deterministic step budget, no exception) with RefProlog. states = distinct '
@@ -118,6 +118,30 @@ def l2_cases(nclauses, maxgoals):
 def l2_case(cl, prog):
     return Case([([cl[i] for i in prog], True, False)], [], L2_QUERIES, repeat=2, ref_steps=3000, ref_depth=40,
                 budget=True)
+
+
+# ---------------------------------------------------------------- L2b: clause sequences of one predicate
+# Every program of 3 clauses (T: 4) of ONE predicate r/2 over 6 head shapes x 4 bodies: what the
+# compiler does for one clause (aliases of head arguments, fresh-variable declarations, loop
+# variables) must not depend on the clauses compiled before it in the same function.
+def l2b_clauses():
+    Zv = V('Z')
+    a = A('a')
+    heads = [F('r', X, Y), F('r', Y, X), F('r', X, a), F('r', a, Y), F('r', F('f', X), Y), F('r', X, X)]
+    bodies_ = [TRUE, call(F('e', X, Y)), (',', call(F('e', X, Zv)), call(F('e', Zv, Y))), call(F('e', Y, X))]
+    return [(h, b) for h in heads for b in bodies_]
+
+
+L2B_SUPPORT = [(F('e', A('a'), A('b')), None), (F('e', A('b'), A('c')), None), (F('e', F('f', A('a')), A('a')), None)]
+L2B_QUERIES = [F('r', QA, QB), F('r', A('a'), QB), F('r', QA, A('nowhere')), F('r', F('f', QA), QB), F('r', QA, QA)]
+
+
+def l2b_cases(ncl):
+    cl = l2b_clauses()
+    idx = 0
+    for prog in itertools.product(range(len(cl)), repeat=ncl):
+        yield idx, prog
+        idx += 1
 
 
 # ---------------------------------------------------------------- L3
@@ -285,6 +309,9 @@ def plan(tier):
         sh += [('L2', k, 4 * NSH, 2, 2) for k in range(4 * NSH)]
     sh += [('L3', k, 8) for k in range(8)]
     sh += [('L4', k, NSH) for k in range(NSH)]
+    sh += [('L2b', k, NSH, 3) for k in range(NSH)]
+    if not q:
+        sh += [('L2b', k, 4 * NSH, 4) for k in range(4 * NSH)]
     return sh
 
 
@@ -314,6 +341,20 @@ def run_shard(spec):
             account(acc, ('L2', ncl, maxgoals, idx), case, res, key=case.describe()['scripts'][0]['text'])
             if idx % 5003 == 0 and res['status'] == 'ok' and res['nontrivial']:
                 acc.sample({'layer': 'L2', 'program': case.describe()['scripts'][0]['text']}, limit=1)
+    elif spec[0] == 'L2b':
+        _, k, n, ncl = spec
+        cl = l2b_clauses()
+        for idx, prog in l2b_cases(ncl):
+            if idx % n != k:
+                continue
+            case = Case([(L2B_SUPPORT, True, True), ([cl[i] for i in prog], True, False)], [], L2B_QUERIES, repeat=1,
+                        ref_steps=3000, ref_depth=40, budget=True)
+            res = case.run()
+            if res['status'] == 'violation':
+                res['sig'] = 'clause-sequence:' + res['sig']
+            account(acc, ('L2b', ncl, idx), case, res, key=case.describe()['scripts'][1]['text'])
+            if idx % 3001 == 0 and res['status'] == 'ok' and res['nontrivial']:
+                acc.sample({'layer': 'L2b', 'program': case.describe()['scripts'][1]['text']}, limit=1)
     elif spec[0] == 'L4':
         _, k, n = spec
         for idx, name, cl, qs, na, nb in l4_cases():
